@@ -17,6 +17,8 @@ def run(rep, tier, seed):
         if tier == "quick" and ((conf[0].startswith("fat32") and i > 22) or (conf[0].startswith("fat16") and i > 44)):
             conf = confs[rng.below(7)]
         scripts.append(sessions.gen_session(rng, conf, nops, file_io=True) + ["drop_all", "list 0", "unmount"])
+    for i in range(6 if tier == "quick" else 100):
+        scripts.append(sessions.full_dir_session(rng, "root" if i % 3 else "chain"))
     judged = sessions.run_judged(scripts, flags=("wf", "tree"), shards=16)
     checked_states = 0
     for jd in judged:
